@@ -103,10 +103,11 @@ impl ClientDialogBuilder {
         };
 
         let entry = DialogEntry::new(None);
-        self.endpoint[self.dialog_layer]
-            .dialogs
-            .lock()
-            .insert(dialog.key(), entry);
+        DialogEntry::insert(
+            &mut self.endpoint[self.dialog_layer].dialogs.lock(),
+            dialog.key(),
+            entry,
+        );
 
         Ok(dialog)
     }
